@@ -14,6 +14,7 @@ import (
 	"os"
 	"sort"
 	"strings"
+	"sync/atomic"
 	"time"
 )
 
@@ -251,7 +252,20 @@ func nextPrefix(pts []point, bound int, floor int) []int {
 // Explore enumerates every execution of body within opts.Bound and calls
 // check on each.  check returns the oracle's complaints (nil = fine) and an
 // outcome label used to count distinct observed outcomes.
+var execStarted atomic.Int64
+var curExploration atomic.Value
+
+// ExecutionsStarted / CurrentExploration: progress indicators for watchdogs.
+func ExecutionsStarted() int64 { return execStarted.Load() }
+func CurrentExploration() string {
+	if s, ok := curExploration.Load().(string); ok {
+		return s
+	}
+	return ""
+}
+
 func Explore(opts Options, body func(), check func(x *Execution) (outcome string, problems []string)) *Stats {
+	curExploration.Store(opts.Name)
 	st := &Stats{ByCost: map[int]int64{}, Outcomes: map[string]int64{}}
 	prefix := append([]int(nil), opts.Prefix...)
 	floor := len(prefix)
@@ -261,6 +275,7 @@ func Explore(opts Options, body func(), check func(x *Execution) (outcome string
 	for {
 		e := &explorer{prefix: prefix, prevSig: prevSig, visited: visited}
 		ex = e
+		execStarted.Add(1)
 		x := runOne(opts, body)
 		ex = nil
 		x.Choices = make([]int, len(e.pts))
